@@ -320,6 +320,21 @@ impl Sim {
                 1 => {
                     headers.insert("x-trace".to_string(), format!("t{}", seq));
                 }
+                2 => {
+                    // application headers whose *names* resemble the routing tag: they are the application's, must
+                    // travel untouched in both directions and must not influence routing
+                    let name = *self.rng.pick(&["CID", "Cid", "cId", "cid ", " cid", "cid\0", "c\u{131}d", "ci", "cidd", "x-cid", "req_id ", "REQ_ID"]);
+                    let v = match self.rng.below(4) {
+                        0 => "0".to_string(),
+                        1 => "1".to_string(),
+                        2 => "order-4711".to_string(),
+                        _ => String::new(),
+                    };
+                    headers.insert(name.to_string(), v);
+                    if self.rng.pct(30) {
+                        headers.insert("".to_string(), "empty-name".to_string());
+                    }
+                }
                 _ => {}
             }
         }
